@@ -164,6 +164,22 @@ func leaves(sv SV, out *[]*Term) {
 		*out = append(*out, v.Tag, v.Ref)
 	case *PtrV:
 		if v.Addr == nil {
+			if v.LV != nil && v.LV.Heap != nil {
+				// a pointer into the interior of a heap object that is stored in memory: it gets an opaque address of
+				// its own. Reads through it (after loading it back) see arbitrary contents — a sound over-approximation;
+				// a store through a pointer of that type is refused (see writeLV).
+				pt := "?"
+				if v.Ty != nil {
+					pt = typeKey(v.Ty.Underlying().(*types.Pointer).Elem())
+				}
+				interiorTypes[pt] = true
+				h := 0
+				for _, p := range v.LV.Path {
+					h = h*31 + p + 1
+				}
+				*out = append(*out, ufun("ptr.interior."+sanitize(pt), []string{SInt, SInt}, SInt, v.LV.Heap, intLit(int64(h))))
+				return
+			}
 			panic("leaves: static pointer has no address")
 		}
 		*out = append(*out, v.Addr)
@@ -313,3 +329,5 @@ func typeAtPath(t types.Type, path []int) types.Type {
 func typeKey(t types.Type) string {
 	return types.TypeString(t, func(p *types.Package) string { return p.Name() })
 }
+
+var interiorTypes = map[string]bool{}
